@@ -598,30 +598,57 @@ func checkAttrsValidatedAtDecode(c *Ctx, rule string) {
 		good := errEx != nil
 		why := "the error of unmarshalFileStat is not examined"
 		if good {
-			for _, rl := range returnLeaves(fn, 0) {
-				k, isNil := rl.v.(*ssa.Const)
-				if !isNil || k.Value != nil {
-					continue
-				}
-				okHere := false
-				for cv, truth := range edgeConds(rl.block, rl.pred) {
-					b, ok := cv.(*ssa.BinOp)
-					if !ok || !isNilConst(b.Y) || b.X != errEx {
-						continue
-					}
-					if (b.Op == token.NEQ && !truth) || (b.Op == token.EQL && truth) {
-						okHere = true
+			// from the side of every test of the validation's error on which it is not nil, no return that can be
+			// reached hands back a nil error (followed path by path: the error may first be joined with the earlier
+			// fields' errors and tested once, behind the join)
+			tests := nilTests(errEx)
+			if len(tests) == 0 {
+				if refs := errEx.Referrers(); refs != nil {
+					for _, r := range *refs {
+						if ph, ok := r.(*ssa.Phi); ok {
+							tests = append(tests, nilTests(ph)...)
+						}
 					}
 				}
-				if !okHere {
+			}
+			if len(tests) == 0 {
+				good = false
+			}
+			for _, nt := range tests {
+				if reachFromNilSide(nt, true, func(in ssa.Instruction) bool {
+					r, ok := in.(*ssa.Return)
+					if !ok || len(r.Results) == 0 {
+						return false
+					}
+					cls, _ := classify(r.Results[0], reachEnv, 0)
+					return cls != clsNonNil
+				}, nil) {
 					good = false
 					why = "a nil return is reachable without a successful validation of the attribute block"
 				}
 			}
 		}
 		if good && attrsStored != nil && attrsStored != restV {
-			good = false
-			why = "the bytes stored in Attrs are not the bytes that were validated"
+			// a join of "nil on the failing paths" and the validated bytes is the validated bytes where it counts
+			same := false
+			if ph, isPhi := attrsStored.(*ssa.Phi); isPhi {
+				same = true
+				seenRest := false
+				for _, e := range ph.Edges {
+					switch {
+					case isNilConst(e):
+					case e == restV:
+						seenRest = true
+					default:
+						same = false
+					}
+				}
+				same = same && seenRest
+			}
+			if !same {
+				good = false
+				why = "the bytes stored in Attrs are not the bytes that were validated"
+			}
 		}
 		c.check(good, rule, key, p.Pos(val.Pos()), "nil only after unmarshalFileStat(flags, rest) succeeded on the stored flags and bytes", tn+": "+why)
 	}
